@@ -106,3 +106,99 @@ func VH_C14_Views() {
 	})
 	vReach("C14a")
 }
+
+func vhSeg(r vhRec, workFlag string) string {
+	f := func(n, w int) string {
+		s := ""
+		for i := 0; i < w; i++ {
+			s = string(rune('0'+n%10)) + s
+			n /= 10
+		}
+		return s
+	}
+	return f(r.y, 4) + f(r.m, 2) + f(r.d, 2) + f(r.name, 1) + workFlag + f(r.ty, 4) + f(r.tm, 2) + f(r.td, 2)
+}
+
+func vhSameRecs(a, b []vhRec) bool {
+	if len(a) != len(b) {
+		return false
+	}
+	for i := range a {
+		if a[i] != b[i] {
+			return false
+		}
+	}
+	return true
+}
+
+// C14d: a one-segment fix-up that replaces, removes or adds a record is reflected exactly; all other records are unchanged.
+// The record is chosen by a symbolic index (case-split by the solver over every record of the table).
+func VH_C14_Fix() {
+	saved := dataInUse
+	defer func() { dataInUse = saved }()
+	rs := vhRecords()
+	lo, hi := vParam("LO"), vParam("HI")
+	if hi >= len(rs) {
+		hi = len(rs) - 1
+	}
+	if lo > hi {
+		vReach("C14d")
+		return
+	}
+	i := vConcretize(vInt("i", lo, hi))
+	op := vConcretize(vInt("op", 0, 2))
+	r := rs[i]
+	// the day must be unique in the table for "the record of that day" to be well defined
+	n := 0
+	for _, x := range rs {
+		if x.y == r.y && x.m == r.m && x.d == r.d {
+			n++
+		}
+	}
+	vAssume(n == 1)
+	var want []vhRec
+	switch op {
+	case 0: // replace: toggle the work flag
+		flag := "0"
+		if r.work {
+			flag = "1"
+		}
+		Fix(nil, vhSeg(r, flag))
+		for k, x := range rs {
+			if k == i {
+				x.work = !x.work
+			}
+			want = append(want, x)
+		}
+	case 1: // remove
+		seg := vhSeg(r, "0")
+		Fix(nil, seg[:8]+"~"+seg[9:])
+		for k, x := range rs {
+			if k != i {
+				want = append(want, x)
+			}
+		}
+	default: // add a record for a day that has none: the same month-day thirty years later
+		nr := r
+		nr.y, nr.ty = r.y+30, r.ty+30
+		flag := "1"
+		if nr.work {
+			flag = "0"
+		}
+		Fix(nil, vhSeg(nr, flag))
+		want = append(append(want, rs...), nr)
+		h := GetHolidayByYmd(nr.y, nr.m, nr.d)
+		vAssert("fix:added-visible", vhSame(h, nr))
+	}
+	vAssert("fix:table-exact", vhSameRecs(vhRecords(), want))
+	h := GetHolidayByYmd(r.y, r.m, r.d)
+	switch op {
+	case 0:
+		vAssert("fix:replaced-visible", h != nil && h.IsWork() == !r.work && h.GetName() == namesInUse[r.name])
+	case 1:
+		vAssert("fix:removed-invisible", h == nil)
+	default:
+		vAssert("fix:original-kept", vhSame(h, r))
+	}
+	vReach("C14d")
+}
